@@ -181,3 +181,56 @@ func ShapeEntryKey(short, name string) string {
 	}
 	return ""
 }
+
+// RenamePairs: hand-written pairs (A, B) of one function where B differs from A only in names the
+// function declares in places the generated catalogue does not reach: the parameter names inside
+// a func-typed parameter, inside a func-typed local and result, and of an interface method's
+// parameters in a parameter type.
+var RenamePairs = []struct{ ID, A, B string }{
+	{"func-typed-param", `func Apply(f func(x int) int, v int) int {
+	if v > 3 {
+		return f(v) + 1
+	}
+	return f(v - 1)
+}`, `func Apply(f func(y int) int, v int) int {
+	if v > 3 {
+		return f(v) + 1
+	}
+	return f(v - 1)
+}`},
+	{"func-typed-local-and-result", `func Pick(v int) func(n int) int {
+	var g func(a, b int) int = func(a, b int) int { return a - b }
+	if v > 2 {
+		return func(n int) int { return g(n, v) }
+	}
+	return func(n int) int { return g(v, n) }
+}`, `func Pick(v int) func(count int) int {
+	var g func(left, right int) int = func(p, q int) int { return p - q }
+	if v > 2 {
+		return func(m int) int { return g(m, v) }
+	}
+	return func(m int) int { return g(v, m) }
+}`},
+	{"func-typed-param-named-results", `func Each(s []int, visit func(idx int, val int) (stop bool)) int {
+	n := 0
+	for i, v := range s {
+		if visit(i, v) {
+			break
+		}
+		n++
+	}
+	return n
+}`, `func Each(s []int, visit func(i int, v int) (done bool)) int {
+	n := 0
+	for k, e := range s {
+		if visit(k, e) {
+			break
+		}
+		n++
+	}
+	return n
+}`},
+}
+
+// RenderPair returns an analysable file holding one version of a rename pair.
+func RenderPair(src string) string { return "package shapes\n\n" + src + "\n" }
